@@ -1895,6 +1895,22 @@ def _time_from_hms(M, fr, n, a):
     good = b_and(lt(h, 24), lt(mi, 60), lt(s_, 60))
     if M.branch(good): return ok(Agg('time::Time', [h, mi, s_, 0]))
     return err(Agg('ComponentRange', []))
+@reg(r'^time::(time::)?Time::from_hms_(milli|micro|nano)$')
+def _time_from_hms_sub(M, fr, n, a):
+    h, mi, s_, sub = simp(a[0]), simp(a[1]), simp(a[2]), simp(a[3])
+    unit = n.rsplit('_', 1)[1]; k = {'milli': 10 ** 6, 'micro': 10 ** 3, 'nano': 1}[unit]; lim = 10 ** 9 // k
+    def lt(x, kk): return (x < kk) if not is_sym(x) else z3.ULT(x, kk)
+    good = b_and(lt(h, 24), lt(mi, 60), lt(s_, 60), lt(sub, lim))
+    if M.branch(good): return ok(Agg('time::Time', [h, mi, s_, (sub * k) if not is_sym(sub) else (z3.ZeroExt(32 - sub.size(), sub) if sub.size() < 32 else sub) * z3.BitVecVal(k, 32)]))
+    return err(Agg('ComponentRange', []))
+@reg(r'^time::(time::)?Time::(hour|minute|second|millisecond|microsecond|nanosecond)$|^time::(primitive_date_time::)?PrimitiveDateTime::(hour|minute|second|millisecond|microsecond|nanosecond)$')
+def _time_field(M, fr, n, a):
+    t = D(M, a[0]) if isinstance(a[0], Ref) else a[0]
+    if t.name.endswith('PrimitiveDateTime'): t = t.f[1]
+    op = n.rsplit('::', 1)[1]
+    if op in ('hour', 'minute', 'second'): return t.f[{'hour': 0, 'minute': 1, 'second': 2}[op]]
+    ns = t.f[3]; k = {'millisecond': 10 ** 6, 'microsecond': 10 ** 3, 'nanosecond': 1}[op]
+    return ns // k if not is_sym(ns) else (z3.UDiv(ns, z3.BitVecVal(k, ns.size())) if k > 1 else ns)
 @reg(r'^time::(time::)?Time::as_hms_micro$|^time::(primitive_date_time::)?PrimitiveDateTime::as_hms_micro$')
 def _time_hmsm(M, fr, n, a):
     t = D(M, a[0]) if isinstance(a[0], Ref) else a[0]
